@@ -94,13 +94,16 @@ def clean_type(t):
     return t.strip()
 
 
+RECORD_SIZES = {}      # struct / typedef name -> size in bytes (filled from the fact base by Interp)
+
+
 def pointee_size(t):
     t = clean_type(t)
     if t.endswith("*"):
         base = t[:-1].strip()
         if base.endswith("*"):
             return 8
-        return TYPE_SIZES.get(base, None)
+        return TYPE_SIZES.get(base, None) or RECORD_SIZES.get(base.replace("struct ", ""), None)
     return None
 
 
@@ -154,6 +157,11 @@ class Interp:
     def __init__(self, P, fn, budget=200000, max_forks=4096, inline_depth=3):
         self.P = P
         self.fn = fn
+        if not RECORD_SIZES:
+            for name, r in P.records.items():
+                if r.get("size"):
+                    RECORD_SIZES[name] = r["size"]
+                    RECORD_SIZES.setdefault(name + "_t", r["size"])
         self.budget = budget
         self.steps = 0
         self.max_forks = max_forks
@@ -440,7 +448,7 @@ class Interp:
         if n.k == "ArraySubscriptExpr":
             b = self.ev(n.c[0], env, fn, depth)
             i = self.ev(n.c[1], env, fn, depth)
-            sz = TYPE_SIZES.get(clean_type(n.t), None)
+            sz = TYPE_SIZES.get(clean_type(n.t), None) or RECORD_SIZES.get(clean_type(n.t).replace("struct ", ""), None)
             if isinstance(b, Ptr):
                 esz = sz or b.esz or 1
                 if isinstance(i, int) and isinstance(b.off, int):
